@@ -20,8 +20,12 @@ def _literal_text(value) -> str:
     """
     A constant as expression text (quotes and backslashes escaped): user values are not pasted into expression source.
     """
+    if isinstance(value, numpy.generic) and (value.dtype.kind in "biuf"):
+        value = value.item()  # numpy numbers as the Python number of the same kind (integers stay exact)
     if not isinstance(value, (str, bool, int, float, type(None))):
-        value = float(value)  # numpy numbers, Decimal, Fraction ...
+        if isinstance(value, (complex, numpy.generic)):
+            raise TypeError(f"can not use a {type(value)} as a constant")
+        value = float(value)  # Decimal, Fraction ...
     return str(data_algebra.expr_rep.Value(value).to_python())
 
 
